@@ -895,6 +895,9 @@ func callBuiltin(caller *frame, callpos token.Pos, fn *ssa.Builtin, args []value
 			return len(x)
 		case sym:
 			st := fr.p.st
+			if smt.LeafCount(x.T, 64) > 0 {
+				return fromTerm(st.MapLeaves(x.T, func(leaf *smt.Term) *smt.Term { return st.BVC(64, uint64(len(leaf.S))) }), types.Int)
+			}
 			return fromTerm(st.StrOp(smt.OStrLen, smt.Int, x.T), types.Int)
 		case array:
 			return len(x)
@@ -965,6 +968,33 @@ var _ = bytes.MinRead
 // symSubstr is s[lo:hi] on a symbolic string (bounds may be symbolic integers).
 func (fr *frame) symSubstr(s sym, lo, hi value) value {
 	st := fr.p.st
+	// finite-domain string with concrete bounds: slice every leaf (no string theory)
+	if smt.LeafCount(s.T, 64) > 0 && !isSym(lo) && !isSym(hi) {
+		l0 := int64(0)
+		if lo != nil {
+			l0 = asInt64(lo)
+		}
+		inRange := st.MapLeaves(s.T, func(leaf *smt.Term) *smt.Term {
+			h0 := int64(len(leaf.S))
+			if hi != nil {
+				h0 = asInt64(hi)
+			}
+			return st.BoolC(0 <= l0 && l0 <= h0 && h0 <= int64(len(leaf.S)))
+		})
+		if !fr.p.branch(fr, nil, inRange) {
+			fr.runtimePanic("slice bounds out of range on a string")
+		}
+		return fromTerm(st.MapLeaves(s.T, func(leaf *smt.Term) *smt.Term {
+			h0 := int64(len(leaf.S))
+			if hi != nil {
+				h0 = asInt64(hi)
+			}
+			if 0 <= l0 && l0 <= h0 && h0 <= int64(len(leaf.S)) {
+				return st.StrC(leaf.S[l0:h0])
+			}
+			return st.StrC("")
+		}), types.String)
+	}
 	ln := st.StrOp(smt.OStrLen, smt.Int, s.T)
 	var l *smt.Term = st.IntC(0)
 	if lo != nil {
